@@ -49,6 +49,8 @@ struct Sc {
     wlb: Option<WlSpec>,
     now: u64,
     start: u64,
+    /// optional per-address limit override (sweep cases)
+    pal: Option<u64>,
 }
 
 fn fmt_c(c: &C) -> String {
@@ -74,8 +76,12 @@ fn parse_wl(s: &str) -> Option<WlSpec> {
 
 impl Sc {
     fn header(&self) -> String {
+        let pal = match self.pal {
+            Some(p) => format!(" pal={p}"),
+            None => String::new(),
+        };
         format!(
-            "case v={} d={} price={} pay={} cap={} fee_bps={} air={} air_bps={} dev={} min={} wl={} wlb={} now={} start={} accts={} denoms={}",
+            "case v={} d={} price={} pay={} cap={} fee_bps={} air={} air_bps={} dev={} min={} wl={} wlb={} now={} start={}{pal} accts={} denoms={}",
             self.v,
             self.d,
             self.price,
@@ -110,6 +116,7 @@ impl Sc {
             wlb: parse_wl(kv(h, "wlb").expect("wlb")),
             now: kv_u64(h, "now").expect("now"),
             start: kv_u64(h, "start").expect("start"),
+            pal: kv_u64(h, "pal"),
         }
     }
     fn kind(&self) -> MinterKind {
@@ -541,6 +548,9 @@ impl Sut for S {
             a.end_time = Some(sc.start + 30 * DAY);
             a.per_address_limit = 5;
         }
+        if let Some(p) = sc.pal {
+            a.per_address_limit = p as u32;
+        }
         if kind == MinterKind::TokenMerge {
             // source collection: a base-minter collection whose creator (MERGER) mints three 1/1 tokens
             let pb = self.world().default_params(MinterKind::Base);
@@ -764,6 +774,36 @@ impl Sut for S {
             if !recips.contains(&who) && !recips.contains(&seller) && got_fee != want_fee {
                 return bad("fee-routing", format!("denom {d}: fee recipients + burned got {got_fee}, network fee is {want_fee}"));
             }
+            // the fee schedule (C06 ratios) with the flag / developer THIS contract is documented to use:
+            // open edition: developer gets ceil(fee/2); liquidity DAO ceil(rest/8) on *-featured minters, ceil(rest/5)
+            // elsewhere; launchpad DAO the remainder; base minter: floor(fee/2) burned, the rest to the fair-burn pool
+            if is_pd && !recips.contains(&who) && !recips.contains(&seller) {
+                let want: Vec<(u64, i128)> = if kind == MinterKind::Base {
+                    vec![(ID_FAIRBURN_POOL, (fee - fee / 2) as i128)]
+                } else {
+                    let mut v = vec![];
+                    let mut rest = fee;
+                    if kind.is_open_edition() {
+                        let dv = l.view.dev.unwrap_or(0);
+                        let df = fee - fee / 2;
+                        v.push((dv, df as i128));
+                        rest = fee - df;
+                    }
+                    let den: u128 = if kind.is_featured() { 8 } else { 5 };
+                    let liq = rest / den + if rest % den == 0 { 0 } else { 1 };
+                    v.push((ID_LIQUIDITY_DAO, liq as i128));
+                    v.push((ID_LAUNCHPAD_DAO, (rest - liq) as i128));
+                    v
+                };
+                for (a, amt) in &want {
+                    if delta(*a, *d) != *amt {
+                        return bad("fee-schedule", format!("denom {d}: fee {fee}: recipient {a} got {} but the schedule gives {amt}", delta(*a, *d)));
+                    }
+                }
+                if kind == MinterKind::Base && burned != (fee / 2) as i128 {
+                    return bad("fee-schedule", format!("base minter burned {burned}, schedule says floor(fee/2) = {}", fee / 2));
+                }
+            }
             if burned != 0 && kind != MinterKind::Base {
                 return bad("unexpected-burn", format!("denom {d}: {burned} burned by a mint"));
             }
@@ -888,6 +928,7 @@ fn gen_scenario(rng: &mut Rng, v: usize) -> Sc {
         wlb,
         now,
         start,
+        pal: None,
     }
 }
 
@@ -904,6 +945,8 @@ enum Fault {
     Double,
     Random,
     Broke,
+    /// pay another configured price (public instead of discount, whitelist price outside its window, airdrop price…)
+    AltPrice,
 }
 
 fn craft_funds(rng: &mut Rng, price: C, fault: Fault) -> Vec<C> {
@@ -944,6 +987,173 @@ fn craft_funds(rng: &mut Rng, price: C, fault: Fault) -> Vec<C> {
         Fault::ZeroCoin => vec![(if rng.chance(1, 2) { d } else { other(rng) }, 0)],
         Fault::Double => vec![(d, n.max(1) * 2)],
         Fault::Random => vec![(d, rng.sized_u128(100))],
+        Fault::AltPrice => exact, // replaced by the caller
+    }
+}
+
+/// the deterministic price grid of the property text: 0, 1..5, 7, 9999, 10001, 10^k - 1, 10^k, 10^k + 1 (k = 1..30)
+fn full_price_grid() -> Vec<u128> {
+    let mut v: Vec<u128> = vec![0, 1, 2, 3, 4, 5, 7, 9999, 10001];
+    for k in 1..=30u32 {
+        let t = 10u128.pow(k);
+        v.extend([t - 1, t, t + 1]);
+    }
+    v.sort();
+    v.dedup();
+    v
+}
+const BPS_GRID: [u64; 6] = [0, 1, 250, 5000, 9999, 10_000];
+
+fn base_sc(v: usize, now: u64) -> Sc {
+    Sc {
+        v,
+        d: 0,
+        price: 100_000_000,
+        pay: Some(PAYADDR),
+        cap: true,
+        fee_bps: 1000,
+        air: (0, 0),
+        air_bps: 10_000,
+        dev: DEV_A,
+        min: 0,
+        wl: None,
+        wlb: None,
+        now,
+        start: now + 1000 * SEC,
+        pal: None,
+    }
+}
+
+/// Deterministic cases run before the random ones: the F-C02 reproduction on every minter that had it, and exhaustive
+/// price-grid x bps-grid sweeps (airdrop price via sudo, public price by lowering it step by step, base price via bps).
+fn fixed_cases(ses: &mut Session, sut: &mut S, rng: &mut Rng) {
+    let big: u128 = 1u128 << 108;
+    let all: Vec<C> = DENOMS.iter().map(|d| (*d, big)).collect();
+    let now = GENESIS + DAY;
+    let thorough = ses.tier() != Tier::Quick;
+    // 1. F-C02 (fixed by e08eaf1): airdrop price 100, airdrop fee 50 % => the other 50 must reach the seller, not stay in the minter
+    for v in [0usize, 1, 2, 3, 4, 5, 9] {
+        for pay in [None, Some(PAYADDR)] {
+            let mut sc = base_sc(v, now);
+            sc.air = (0, 100);
+            sc.air_bps = 5000;
+            sc.pay = pay;
+            ses.begin_case(sut, &sc.header());
+            ses.step(sut, &format!("fund a={ADMIN} cs={}", fmt_pairs(&all)));
+            let out = ses.step(sut, &format!("mint who={ADMIN} admin=1 to={RECIP} funds=0:100"));
+            ses.mark(format!("corpus:F-C02:{}:{}", MinterKind::from_idx(v).name(), &out[..2]));
+            ses.end_case();
+        }
+    }
+    // 2. airdrop sweeps: every grid price x every grid bps
+    let grid = full_price_grid();
+    let mut combos: Vec<(u128, u64)> = vec![];
+    for p in &grid {
+        for b in BPS_GRID {
+            combos.push((*p, b));
+        }
+    }
+    // open edition uncapped (dev fee recipient, unlimited tokens): all non-zero prices, alternating denoms 0 / 8
+    for (v, d) in [(6usize, 0u64), (7, 8), (8, 7)] {
+        if !thorough && v != 6 {
+            continue;
+        }
+        let mut sc = base_sc(v, now);
+        sc.cap = false;
+        sc.air = (d, 1);
+        ses.begin_case(sut, &sc.header());
+        ses.step(sut, &format!("fund a={ADMIN} cs={}", fmt_pairs(&all)));
+        for (i, (p, b)) in combos.iter().enumerate() {
+            if *p == 0 {
+                continue;
+            }
+            let dev = if i % 2 == 0 { DEV_A } else { DEV_B };
+            ses.step(sut, &format!("sudo fee_bps=1000 air={d}:{p} air_bps={b} dev={dev}"));
+            let out = ses.step(sut, &format!("mint who={ADMIN} admin=1 to={RECIP} funds={d}:{p}"));
+            ses.mark(format!("sweep:oe-airdrop:{}:bps{}:{}", price_class(*p), b, &out[..2]));
+            ses.count(&format!("sweep:oe-airdrop:{}", &out[..2]));
+        }
+        ses.end_case();
+    }
+    // vending / token-merge: 60 tokens per collection => chunks of 55 combos
+    let chunked: Vec<usize> = if thorough { vec![0, 1, 2, 3, 4, 5, 9] } else { vec![1, 9] };
+    for v in chunked {
+        let mut todo: Vec<(u128, u64)> = combos.clone();
+        if !thorough {
+            rng.shuffle(&mut todo);
+            todo.truncate(110);
+        }
+        for chunk in todo.chunks(55) {
+            let sc = base_sc(v, now);
+            ses.begin_case(sut, &sc.header());
+            ses.step(sut, &format!("fund a={ADMIN} cs={}", fmt_pairs(&all)));
+            for (p, b) in chunk {
+                ses.step(sut, &format!("sudo fee_bps=1000 air=0:{p} air_bps={b} dev={DEV_A}"));
+                let funds = if *p == 0 { "-".to_string() } else { format!("0:{p}") };
+                let out = ses.step(sut, &format!("mint who={ADMIN} admin=1 to={RECIP} funds={funds}"));
+                ses.mark(format!("sweep:{}-airdrop:{}:bps{}:{}", MinterKind::from_idx(v).name(), price_class(*p), b, &out[..2]));
+            }
+            ses.end_case();
+        }
+    }
+    // 3. public price sweep on an uncapped open edition with per-address limit 50: start at the top of the grid and
+    //    lower the price step by step (only lowering is allowed after the start), cycling the fee bps
+    {
+        let mut sc = base_sc(6, now);
+        sc.cap = false;
+        sc.air = (0, 1);
+        sc.price = 10u128.pow(30) + 2;
+        sc.pal = Some(50);
+        ses.begin_case(sut, &sc.header());
+        for b in BUYERS {
+            ses.step(sut, &format!("fund a={b} cs={}", fmt_pairs(&all)));
+        }
+        ses.step(sut, &format!("t at={}", sc.start));
+        let mut desc = grid.clone();
+        desc.reverse();
+        for (i, p) in desc.iter().enumerate() {
+            if *p == 0 {
+                continue; // an uncapped open edition cannot be free
+            }
+            let b = BPS_GRID[i % BPS_GRID.len()];
+            ses.step(sut, &format!("sudo fee_bps={b} air=0:1 air_bps=10000 dev={DEV_A}"));
+            ses.step(sut, &format!("set_price p={p}"));
+            let who = BUYERS[i % BUYERS.len()];
+            let out = ses.step(sut, &format!("mint who={who} admin=0 funds=0:{p}"));
+            ses.mark(format!("sweep:oe-public:{}:bps{}:{}", price_class(*p), b, &out[..2]));
+            ses.count(&format!("sweep:oe-public:{}", &out[..2]));
+            // and one unit off, which must be rejected
+            let off = if i % 2 == 0 { p + 1 } else { p - 1 };
+            if off != 0 {
+                let out = ses.step(sut, &format!("mint who={who} admin=0 funds=0:{off}"));
+                ses.mark(format!("sweep:oe-public-off:{}", &out[..2]));
+                ses.count(&format!("sweep:oe-public-off:{}", &out[..2]));
+            }
+        }
+        ses.end_case();
+    }
+    // 4. base minter: price = floor(min_mint_price x bps / 10^4) for grid minimum prices x all bps (incl. non-multiples of the divisor)
+    let mins: Vec<u128> = if thorough { grid.clone() } else { grid.iter().copied().step_by(6).collect() };
+    for chunk in mins.chunks(8) {
+        for m in chunk {
+            let mut sc = base_sc(10, now);
+            sc.price = *m;
+            sc.min = *m;
+            ses.begin_case(sut, &sc.header());
+            ses.step(sut, &format!("fund a={ADMIN} cs={}", fmt_pairs(&all)));
+            for b in [1u64, 250, 5000, 9999, 10_000, 3] {
+                ses.step(sut, &format!("sudo fee_bps={b} air=0:0 air_bps=0 dev={DEV_A}"));
+                let fee = mul_bps(*m, b);
+                let funds = if fee == 0 { "-".to_string() } else { format!("0:{fee}") };
+                let out = ses.step(sut, &format!("mint who={ADMIN} admin=0 funds={funds}"));
+                ses.mark(format!("sweep:base:{}:bps{}:{}", price_class(fee), b, &out[..2]));
+                ses.count(&format!("sweep:base:{}", &out[..2]));
+                let out = ses.step(sut, &format!("mint who={ADMIN} admin=0 funds=0:{}", fee + 1));
+                ses.mark(format!("sweep:base-off:{}", &out[..2]));
+                ses.count(&format!("sweep:base-off:{}", &out[..2]));
+            }
+            ses.end_case();
+        }
     }
 }
 
@@ -954,8 +1164,9 @@ fn main() {
         ses.finish(&mut sut);
     }
     let mut rng = ses.rng.fork();
-    let per_kind = ses.scale(26, 520);
+    let per_kind = ses.scale(50, 1300);
     let big: u128 = 1u128 << 104;
+    fixed_cases(&mut ses, &mut sut, &mut rng);
 
     for round in 0..per_kind {
         for v in 0..11usize {
@@ -1078,7 +1289,8 @@ fn main() {
                 let (price, bps) = sut.price_in_force(&view, admin);
                 let fault = match rng.below(100) {
                     0..=61 => Fault::Exact,
-                    62..=66 => Fault::Plus1,
+                    62..=63 => Fault::AltPrice,
+                    64..=66 => Fault::Plus1,
                     67..=71 => Fault::Minus1,
                     72..=76 => Fault::WrongDenom,
                     77..=81 => Fault::ExtraCoin,
@@ -1086,7 +1298,8 @@ fn main() {
                     84..=87 => Fault::NoFunds,
                     88..=90 => Fault::ZeroCoin,
                     91..=93 => Fault::Double,
-                    94..=96 => Fault::Random,
+                    94..=95 => Fault::Random,
+                    96 => Fault::AltPrice,
                     _ => Fault::Broke,
                 };
                 let mut who = if admin {
@@ -1114,6 +1327,20 @@ fn main() {
                 let mut line = format!("mint who={who} admin={}", admin as u8);
                 let mut funds = craft_funds(&mut rng, price, fault);
                 let mut fault = fault;
+                if fault == Fault::AltPrice {
+                    let mut alts: Vec<C> = vec![];
+                    alts.extend(view.public);
+                    alts.extend(view.discount);
+                    alts.extend(view.wl.map(|w| w.1));
+                    alts.push(view.air);
+                    alts.retain(|c| *c != price && c.1 != 0);
+                    if alts.is_empty() {
+                        fault = Fault::Plus1;
+                        funds = craft_funds(&mut rng, price, fault);
+                    } else {
+                        funds = vec![*rng.pick(&alts)];
+                    }
+                }
                 let pkind;
                 if admin {
                     pkind = "airdrop";
